@@ -263,6 +263,31 @@ def check_paths(ctx):
                               for a_, b_ in zip(r.interfaces, list(p.interfaces)[::-1])))
                 if not ok:
                     ctx.violate(f"Path.reverse of {w} ({code}) is not the reversed path", cj, {"kind": "reverse"})
+            # oracle from the geometry (independent of the Lean table): the declared normal side of every interface is the
+            # side the wall's normal really points to, seen from the previous / next interface of the path; a wall is crossed
+            # in transmission exactly when the medium changes
+            centre = lambda i_: i_.points.coords.mean(axis=0)
+            normal = lambda i_: i_.orientations.coords.reshape(-1, 3, 3)[0, 2]
+            for k, itf in enumerate(p.interfaces):
+                if not (0 < k < len(p.interfaces) - 1):
+                    continue   # the probe and the grid are not walls: their flags carry no physical meaning (no coefficient is computed there)
+                if k > 0:
+                    want_inc = bool(normal(itf) @ (centre(p.interfaces[k - 1]) - centre(itf)) > 0)
+                    if itf.are_normals_on_inc_rays_side is not None and itf.are_normals_on_inc_rays_side != want_inc:
+                        ctx.violate(f"path {w} ({code}), interface {k}: are_normals_on_inc_rays_side={itf.are_normals_on_inc_rays_side} but the incoming rays "
+                                    f"come from the {'normal' if want_inc else 'opposite'} side", cj, {"kind": "normal_side"})
+                if k < len(p.interfaces) - 1:
+                    want_out = bool(normal(itf) @ (centre(p.interfaces[k + 1]) - centre(itf)) > 0)
+                    if itf.are_normals_on_out_rays_side is not None and itf.are_normals_on_out_rays_side != want_out:
+                        ctx.violate(f"path {w} ({code}), interface {k}: are_normals_on_out_rays_side={itf.are_normals_on_out_rays_side} but the outgoing rays "
+                                    f"leave on the {'normal' if want_out else 'opposite'} side", cj, {"kind": "normal_side"})
+                if 0 < k < len(p.interfaces) - 1:
+                    if itf.are_normals_on_inc_rays_side is None or itf.are_normals_on_out_rays_side is None:
+                        ctx.violate(f"path {w} ({code}), interface {k}: an interior interface has an undeclared normal side", cj, {"kind": "normal_side"})
+                    crosses = p.materials[k - 1] is not p.materials[k]
+                    tr = itf.transmission_reflection.name if itf.transmission_reflection is not None else None
+                    if tr is not None and tr != ("transmission" if crosses else "reflection"):
+                        ctx.violate(f"path {w} ({code}), interface {k}: declared {tr} although the medium {'changes' if crosses else 'does not change'}", cj, {"kind": "trans_refl"})
 
 
 def check_views(ctx):
